@@ -39,6 +39,53 @@ def _model_str(m, s):
     return "".join(chr(m.eval(s.chars[i], model_completion=True).as_long()) for i in range(n))
 
 
+def _dse_fallback(ctx, which, why):
+    """the merged interpreter does not know a construct of the current source: explore the real function
+    path by path instead (smaller bound, same oracle)"""
+    import ford.reader as rd
+    import ford.utils as fu
+
+    N = 5 if ctx.thorough else 4
+    ctx.bounds.update({"engine_fallback": "SX (path exploration) because SXM reported: " + why[:120], "N": N, "alphabet": LEX})
+
+    def h(E):
+        s = E.string("s", N, alphabet=LEX)
+        h.s = s
+        E.e.snapshot = lambda m: {"s": E.model_value(m, s), "sep": ";"}
+        st = O.lex_states(s)
+        if which == "unterminated":
+            got = rd._contains_unterminated_string(s)
+            E.reachable("ran")
+            want = O.state_at_len(s, st) != O.OUT
+            E.require(sym.mk_bool(sym.bterm(got) == want) if not isinstance(got, bool) else sym.mk_bool(z3.BoolVal(got) == want),
+                      "ford == lexical rule")
+        else:
+            got = fu.quote_split(";", s)
+            E.reachable("ran")
+            cut = [z3.And(iv(i) < s.len, st[i] == O.OUT, s.chars[i] == ord(";")) for i in range(N)]
+            n = len(got)
+            E.require(sym.mk_bool(z3.Sum(*[z3.If(c, 1, 0) for c in cut]) + 1 == n), "number of pieces differs from the lexical rule")
+            # pieces joined by `;` give back the input
+            joined = SymStr.const("")
+            for j, piece in enumerate(got):
+                joined = joined + (";" if j else "") + piece
+            E.require(sym.mk_bool(SymStr.lift(joined).eq_t(s)), "pieces are not verbatim slices of the input")
+
+    with patch.patched(rd, fu):
+        E = sym.Engine(ctx, max_paths=200000)
+        found = E.explore(h)
+        seen = set()
+        for (label, m, pc), snap in zip(found, E.snapshots):
+            if label in seen:
+                continue
+            seen.add(label)
+            ctx.report(label, snap, replay_unterminated if which == "unterminated" else replay_quote_split)
+        if E.reached.get("ran"):
+            ctx.twins += 1
+        else:
+            ctx.inconclusive.append("vacuity: function never returned")
+
+
 # ---------------------------------------------------------------------------------------
 def replay_unterminated(w):
     import ford.reader as rd
@@ -60,7 +107,7 @@ def unterminated(ctx):
     try:
         res = sxm.run(rd._contains_unterminated_string, N, s)
     except sxm.Unsupported as e:
-        raise Inconclusive(f"SXM cannot encode _contains_unterminated_string: {e}")
+        return _dse_fallback(ctx, "unterminated", str(e))
     _check_unwind(ctx, res, base, "unterminated")
     got = z3.Or(*[z3.And(g, sxm._b(v)) for g, v in res.returns])
     st = O.lex_states(s)
@@ -100,7 +147,7 @@ def quote_split(ctx):
     try:
         res = sxm.run(fu.quote_split, N + 1, ";", s)
     except sxm.Unsupported as e:
-        raise Inconclusive(f"SXM cannot encode quote_split: {e}")
+        return _dse_fallback(ctx, "quote_split", str(e))
     _check_unwind(ctx, res, base, "quote_split")
     if len(res.returns) != 1 or not isinstance(res.returns[0][1], sxm.GList):
         raise Inconclusive("quote_split: unexpected return structure")
